@@ -31,6 +31,13 @@ class UserError(Exception):
     pass
 
 
+class UserBase(BaseException):      # a BaseException that is not an Exception
+    pass
+
+
+BASES = [UserBase, KeyboardInterrupt, SystemExit, GeneratorExit]
+
+
 def exc_code(e):
     t = type(e)
     if t is PausedStream: return 2
@@ -44,6 +51,7 @@ def exc_code(e):
     if t is UserError: return 6
     if t is AttributeError: return 7
     if t is Exception: return 9
+    if t in BASES: return 12
     return 99
 
 
@@ -148,6 +156,7 @@ class Env:
         def ends(a):
             k = a[0]
             if k == 'raise': raise UserError()
+            if k == 'raisebase': raise BASES[a[1] % len(BASES)]()
             if k == 'yreset': raise YieldAndReset(env.dec(a[1]))
             if k == 'always': raise AlwaysYield(env.dec(a[1]))
 
@@ -162,6 +171,9 @@ class Env:
                         env.log(i, [1] + env.enc(x))
                     elif k == 'return':
                         return
+                    elif k == 'relay':
+                        x = yield env.routines[a[1]].next(env.dec(a[2]))
+                        env.log(i, [1] + env.enc(x))
                     elif k == 'wait':
                         yield from env.cond_of(a[1]).wait()
                     elif k == 'flowget':
@@ -189,7 +201,7 @@ class Env:
                         continue
                     if k == 'return':
                         return
-                    if k in ('yield', 'wait', 'flowget'):
+                    if k in ('yield', 'wait', 'flowget', 'relay'):
                         continue
                     ends(a)
             if d['hasin']:
@@ -296,6 +308,8 @@ class Env:
         sched.queue = OneShot()
         try:
             sched.run()
+        except BaseException:       # ClockTask._wakeup only handles Exception: a BaseException comes through
+            pass
         finally:
             sched.queue = real
             Routine.__awake__ = orig
@@ -316,7 +330,7 @@ class Env:
             else:
                 try:
                     o = ['ret', self.do_call(op[1])]
-                except Exception as e:
+                except BaseException as e:      # incl. KeyboardInterrupt / SystemExit raised by a body
                     o = ['exc', exc_code(e)]
             obs.append(self.enc_out(o) + [-9] + self.snapshot())
             self.struct.append(self.structured(o))
